@@ -32,4 +32,5 @@ def run(ctx):
     parallel.no_rng(ctx, 'C06', ['vanilla::solve_full_single', 'vanilla::solve_full_multi'])
     parallel.child_reach_fresh(ctx, 'C06', ['solve::vanilla::thread_threshold'])
     parallel.frontier_reach_form(ctx, 'C06')
+    parallel.frontier_search_pure(ctx, 'C06', ['vanilla'])
     parallel.no_unsafe(ctx, 'C06')
